@@ -289,6 +289,7 @@ ADDENDA6 = {
     'C07': ' C07.BASIS: every public function of the summation module taking `basis` is instantiated with the basis spelled \'AIG\', \'aig\', GenerationBasis.AIG (same for XAIG): only gates of that basis are created. C07.ENDIAN-REL: for every public generator with a big_endian parameter the big-endian call on reversed operands returns the reversed little-endian result (every operand value, widths 1-3). The shape rules BASIS-TS / BASIS-REACH / ENDIAN are soft where these folds were instantiated.',
     'C08': ' C08.GEN: generate_mul / generate_square instantiated for every member of their mode enumerations (widths 1 and 3, both endiannesses, every operand value); C08.ENDIAN-REL as for C07; the 48-bit squarer (the width from which add_square splits its operand) is instantiated in the quick tier as well. The registry / Karatsuba / endianness shape rules are soft under these folds.',
     'C09': ' C09.ENDIAN-REL as for C07; the OUT-GUARD shape rule is soft under the gadget folds, which run every function with an add_outputs parameter with and without it.',
+    'C12': ' C12.FOLD also folds, in every representation, one function per Hamming-weight layer that is asymmetric in that layer only (four and five inputs) and a three-output function of that kind, so a symmetric-check loop that skips a layer is wrong on one of them.',
     'C14': ' The table of bench rewrites is evaluated (closure factories and callable records count).',
     'C16': ' The gate-level round trip steps aside when the private helpers have other parameter lists than on the pinned tree (the round trip of whole circuits decides).',
     'C17': ' Generator functions are folded lazily (item by item), so a lookup that yields one table object updated in place per completion is decided as it behaves.',
